@@ -106,9 +106,21 @@ func genScenario(r *hx.Rng, name string, thorough bool) scenario {
 		qnsum  int
 		used   map[int]bool // txs on the branch
 		depth  int
+		pv     int
 	}
 	nodes := []nb{{label: "b0", parent: -1, height: 0, used: map[int]bool{}}}
-	shape := r.Intn(4) // 0 chainy, 1 bushy, 2 two long forks, 3 random
+	// isDesc(t, p): t is a proper descendant of p
+	isDesc := func(t, p int) bool {
+		for t > 0 {
+			t = nodes[t].parent
+			if t == p {
+				return true
+			}
+		}
+		return false
+	}
+	eqTarget := map[int]int{} // block -> block on another branch below the same parent with the same cumulative QN
+	shape := r.Intn(6)        // 0 chainy, 1 bushy, 2 two long forks, 3 random, 4/5 ladder: one main chain, forks off every rung
 	for i := 1; i <= maxBlocks; i++ {
 		var p int
 		switch shape {
@@ -129,16 +141,81 @@ func genScenario(r *hx.Rng, name string, thorough bool) scenario {
 			} else {
 				p = i - 2
 			}
-		default:
+		case 3:
 			p = r.Intn(len(nodes))
+		default:
+			main := (maxBlocks + 1) / 2
+			if i <= main {
+				p = i - 1
+			} else {
+				p = r.Intn(main) // a rung of the main chain (or genesis)
+			}
 		}
 		par := nodes[p]
+		// heights may skip (a proposer slot was missed): +1, +2 or +3
 		h := par.height + 1
-		if r.Chance(1, 5) {
+		skipDen := 3
+		if shape >= 4 && i <= (maxBlocks+1)/2 {
+			skipDen = 8 // the ladder's main chain is mostly gap-free, its forks skip
+		}
+		if r.Chance(1, skipDen) {
 			h += 1 + r.Intn(2)
 		}
-		qn := r.Pick(1, 1, 2, 2, 3, 0)
-		pv := r.Pick(1, 2, 2, 3)
+		qn := r.Pick(1, 1, 1, 2, 2, 3)
+		pvLo, pvHi := 0, 0
+		// forks: aim at EQUAL cumulative QN with a block on another branch below the same parent, the
+		// tip sitting at, above or below that block's height, so that the tie-break at the fork point decides
+		var cands []int
+		for t := 1; t < len(nodes); t++ {
+			if isDesc(t, p) {
+				need := nodes[t].qnsum - par.qnsum
+				if need >= 1 && need <= 3 {
+					cands = append(cands, t)
+				}
+			}
+		}
+		if len(cands) > 0 && r.Chance(3, 4) {
+			t := cands[r.Intn(len(cands))]
+			if r.Chance(1, 2) { // prefer a target well above the fork point
+				for _, x := range cands {
+					if nodes[x].depth > nodes[t].depth {
+						t = x
+					}
+				}
+			}
+			qn = nodes[t].qnsum - par.qnsum
+			eqTarget[i] = t
+			// boundary bias: the range of prove values on the competing branch (fork point .. target)
+			for x := t; x != p && x > 0; x = nodes[x].parent {
+				if pvLo == 0 || nodes[x].pv < pvLo {
+					pvLo = nodes[x].pv
+				}
+				if nodes[x].pv > pvHi {
+					pvHi = nodes[x].pv
+				}
+			}
+			switch r.Intn(5) {
+			case 0:
+				h = par.height + 1
+			case 1, 4:
+				h = nodes[t].height
+			case 2:
+				h = nodes[t].height + 1 + r.Intn(2)
+			default:
+				h = par.height + 1 + r.Intn(3)
+			}
+			if h <= par.height {
+				h = par.height + 1
+			}
+		}
+		// prove values spread widely so that ties at the fork point go both ways; sometimes equal (hash decides)
+		pv := 1 + r.Intn(999)
+		if r.Chance(1, 6) {
+			pv = r.Pick(500, 500, 501)
+		}
+		if pvHi > 0 && r.Chance(1, 2) {
+			pv = pvLo + r.Intn(pvHi-pvLo+1) // between the candidates a wrong tie-break could pick
+		}
 		used := map[int]bool{}
 		for k := range par.used {
 			used[k] = true
@@ -170,7 +247,7 @@ func genScenario(r *hx.Rng, name string, thorough bool) scenario {
 		if r.Chance(1, 25) {
 			flag = "badroot"
 		}
-		n := nb{label: fmt.Sprintf("b%d", i), parent: p, height: h, qnsum: par.qnsum + qn, used: used, depth: par.depth + 1}
+		n := nb{label: fmt.Sprintf("b%d", i), parent: p, height: h, qnsum: par.qnsum + qn, used: used, depth: par.depth + 1, pv: pv}
 		nodes = append(nodes, n)
 		sc.lines = append(sc.lines, fmt.Sprintf("blk %s %s %d %d %d %s %s", n.label, par.label, h, qn, pv, txl, flag))
 	}
@@ -179,8 +256,28 @@ func genScenario(r *hx.Rng, name string, thorough bool) scenario {
 	for i := 1; i <= maxBlocks; i++ {
 		order = append(order, i)
 	}
-	swaps := r.Intn(3)
-	if r.Chance(1, 5) {
+	// an equal-weight fork only competes while its target is the head: deliver it right after the target
+	for i := 1; i <= maxBlocks; i++ {
+		t, ok := eqTarget[i]
+		if !ok || !r.Chance(3, 4) {
+			continue
+		}
+		var no []int
+		for _, x := range order {
+			if x != i {
+				no = append(no, x)
+			}
+		}
+		order = order[:0]
+		for _, x := range no {
+			order = append(order, x)
+			if x == t {
+				order = append(order, i)
+			}
+		}
+	}
+	swaps := r.Intn(2)
+	if r.Chance(1, 6) {
 		swaps += maxBlocks
 	}
 	for s := 0; s < swaps; s++ {
